@@ -26,7 +26,7 @@ FLOORS = {"quick": {"is_leap": 19998, "is_long_year": 19998, "days_in_year": 199
                        "local_time": 2 * 10**6, "getters": 7304118, "backend_eq": 2 * 10**6}}
 REQUIRED_HOOKS = ["py.is_leap", "py.week_day", "py.local_time", "rs.is_leap", "rs.week_day", "rs.local_time"]
 EXHAUSTIVE = {"quick": False, "thorough": True}
-TECHNIQUE = "runtime contracts on both implementations of the calendar primitives against datetime/calendar, driven by exhaustive enumeration of years and dates; getters read on Date, naive, UTC and zone-aware values; shards run under rotating calendar.setfirstweekday()"
+TECHNIQUE = "runtime contracts on both implementations of the calendar primitives against datetime/calendar, driven by exhaustive enumeration of years and dates; getters read on Date, naive, UTC and zone-aware values and on the same instant expressed in a far-away zone (equal and hash-equal, other calendar date; both orders); shards run under rotating calendar.setfirstweekday()"
 LEVEL_TEXT = ("every call of the five primitives in either implementation is judged against the standard library; the thorough tier "
               "drives them (and the Date/DateTime getters) over all 9999 years and all 3 652 059 dates, day-boundary timestamps "
               "+-1 s over the whole range and random (second, offset) pairs; exhaustive for the year and date sub-domains")
@@ -144,6 +144,7 @@ _ZONES = ["Europe/Paris", "America/New_York", "Australia/Sydney", "Australia/Lor
           "Asia/Kathmandu", "Pacific/Kiritimati", "America/St_Johns", "Africa/Casablanca", "Pacific/Chatham",
           "America/Asuncion", "America/Havana", "Asia/Amman", "Africa/Cairo", "America/Sao_Paulo", "Europe/Moscow"]     # gaps at midnight
 _EDGES = [(0, 0, 0, 0), (0, 30, 0, 0), (23, 59, 59, 999999), (23, 30, 0, 0), (0, 59, 59, 999999), (1, 0, 0, 0), (12, 0, 0, 0)]
+_FAR = ["Pacific/Kiritimati", "Pacific/Pago_Pago", "Asia/Tokyo", "America/Los_Angeles", "UTC", "Pacific/Chatham"]
 _TZ = {}
 
 
@@ -189,10 +190,28 @@ def _getters(M, P, d, w):
     o = d.toordinal()
     zn = _ZONES[o % len(_ZONES)]
     hms = _EDGES[(o // len(_ZONES)) % len(_EDGES)]
+    xz = P.DateTime(y, m, dd, *hms, tzinfo=_tz(P, zn), fold=o % 2)
+    # history: the same instant expressed in a far-away zone is equal and hash-equal to xz but lies on another calendar
+    # date; whichever of the two is read first, each must answer for its own local date (a result memoised per value
+    # would be served to the other one)
+    other = None
+    if 2 <= y <= 9998:
+        try:
+            other = xz.in_timezone(_tz(P, _FAR[(o // 3) % len(_FAR)]))
+        except (OverflowError, ValueError):
+            other = None
+    if other is not None and o % 2:
+        _judge_getters(M, "datetime-zone:same-instant-other-zone", other, _expected(dt.date(other.year, other.month, other.day)),
+                       dt.date(other.year, other.month, other.day))
     for kind, x in (("date", P.Date(y, m, dd)), ("datetime", P.DateTime(y, m, dd, 12, tzinfo=P.UTC)),
                     ("datetime-naive", P.DateTime(y, m, dd, 23, 59, 59, 999999)),
-                    ("datetime-zone", P.DateTime(y, m, dd, *hms, tzinfo=_tz(P, zn), fold=o % 2))):
+                    ("datetime-zone", xz)):
         _judge_getters(M, kind, x, exp, d)
+    if other is not None and not o % 2:
+        _judge_getters(M, "datetime-zone:same-instant-other-zone", other, _expected(dt.date(other.year, other.month, other.day)),
+                       dt.date(other.year, other.month, other.day))
+        if (other.year, other.month, other.day) != (y, m, dd):
+            M.count("same_instant_other_date")
 
 
 def run(M, c):
